@@ -618,7 +618,7 @@ pub fn run(ctx: &Ctx) -> Evidence {
     ev.extra.insert("interleavings_enumerated".into(), json!(total_schedules));
 
     // ---- (b) ---------------------------------------------------------------------------------
-    let runs = ctx.tier.pick(120usize, 3000usize);
+    let runs = ctx.tier.pick(300usize, 3000usize);
     let dir = ctx.scratch("c02");
     let mut rng = Rng::new(ctx.seed);
     match Server::start(server_config(&dir, false), 4) {
